@@ -182,3 +182,12 @@ func ConstBig(pk *packages.Package, name string) *big.Int {
 	b, _ := new(big.Int).SetString(v.ExactString(), 10)
 	return b
 }
+
+// ConstOfValue converts a go/constant integer value to int64.
+func ConstOfValue(v constant.Value) (int64, bool) {
+	v = constant.ToInt(v)
+	if v.Kind() != constant.Int {
+		return 0, false
+	}
+	return constant.Int64Val(v)
+}
